@@ -40,6 +40,7 @@ type ECall struct {
 type EQuant struct {
 	Forall bool
 	Var    string
+	VType  string // "" (int) or a declared type: "string", "bool", "*T", "*pkg.T"
 	Lo, Hi Expr // nil when unbounded
 	Body   Expr
 }
@@ -253,6 +254,23 @@ func (ps *parser) unary() (Expr, error) {
 			return nil, fmt.Errorf("quantifier variable expected at %d in %q", v.pos, ps.src)
 		}
 		q := &EQuant{Forall: t.text == "forall", Var: v.text}
+		// optional type of the bound variable: "forall e *Entry :: ...",
+		// "forall k string :: ..." (unbounded quantifiers only)
+		if ps.peek().kind == "op" && ps.peek().text == "*" {
+			ps.next()
+			tn := ps.next()
+			if tn.kind != "ident" {
+				return nil, fmt.Errorf("type name expected after * at %d in %q", tn.pos, ps.src)
+			}
+			q.VType = "*" + tn.text
+			if ps.peek().kind == "op" && ps.peek().text == "." {
+				ps.next()
+				tn2 := ps.next()
+				q.VType += "." + tn2.text
+			}
+		} else if ps.peek().kind == "ident" && ps.peek().text != "in" {
+			q.VType = ps.next().text
+		}
 		if ps.peek().kind == "ident" && ps.peek().text == "in" {
 			ps.next()
 			lo, err := ps.expr(7)
@@ -449,6 +467,7 @@ type LoopSpec struct {
 	Invariants []*Clause
 	Modifies   []Expr // nil = not declared
 	HasMod     bool
+	ModFresh   bool // "loop N modifies fresh": besides the listed locations, objects allocated during this call may change
 }
 
 type FuncContract struct {
@@ -521,6 +540,7 @@ type CallSiteSpec struct {
 	Callee  string
 	Ordinal int
 	Clause  *Clause
+	Let     string // "at call X let NAME = E": spec-level name bound after the call
 }
 
 type Macro struct {
@@ -760,6 +780,13 @@ func parseContractLines(pkg string, lines []string) (*PkgContracts, error) {
 				}
 				ls.Invariants = append(ls.Invariants, &Clause{Kind: "invariant", Label: label, Src: src, E: e})
 			case "modifies":
+				if strings.TrimSpace(rest2) == "fresh" {
+					// the loop writes only objects allocated during this call
+					// (frame relative to the function's entry, not the loop's)
+					ls.HasMod = true
+					ls.ModFresh = true
+					break
+				}
 				locs, err := parseLocList(rest2)
 				if err != nil {
 					return nil, fmt.Errorf("%s: %s: %v", pkg, s, err)
@@ -786,6 +813,26 @@ func parseContractLines(pkg string, lines []string) (*PkgContracts, error) {
 			}
 			after := strings.TrimSpace(rest[strings.Index(rest, f[1])+len(f[1]):])
 			kw2, rest2 := splitKeyword(after)
+			if kw2 == "let" {
+				// at call NAME#K let X = E: E is evaluated in the state right
+				// after the call (argN, resultN available) and named X for
+				// the clauses evaluated later on the same path
+				k := strings.Index(rest2, "=")
+				if k <= 0 {
+					return nil, fmt.Errorf("%s: bad let clause %q", pkg, s)
+				}
+				lname := strings.TrimSpace(rest2[:k])
+				src := strings.TrimSpace(rest2[k+1:])
+				if lname == "" || strings.ContainsAny(lname, " \t[]().") {
+					return nil, fmt.Errorf("%s: bad let name in %q", pkg, s)
+				}
+				e, err := parseExpr(src)
+				if err != nil {
+					return nil, fmt.Errorf("%s: %s: %v", pkg, s, err)
+				}
+				cur.CallSites = append(cur.CallSites, &CallSiteSpec{Callee: callee, Ordinal: ord, Let: lname, Clause: &Clause{Kind: "calllet", Src: "let " + lname + " = " + src, E: e}})
+				continue
+			}
 			if kw2 != "assert" && kw2 != "assume" {
 				return nil, fmt.Errorf("%s: bad at clause %q", pkg, s)
 			}
